@@ -11,6 +11,7 @@ import (
 	"github.com/klev-dev/klevdb/pkg/index"
 	"github.com/klev-dev/klevdb/pkg/message"
 	"github.com/klev-dev/klevdb/pkg/segment"
+	"github.com/klev-dev/klevdb/pkg/vhook"
 )
 
 type writer struct {
@@ -91,14 +92,17 @@ func (w *writer) Publish(msgs []message.Message) (int64, error) {
 		if err != nil {
 			return OffsetInvalid, err
 		}
+		vhook.At("writer.record")
 
 		items[i] = w.params.NewItem(msgs[i], position, indexTime)
 		if err := w.items.Write(items[i]); err != nil {
 			return OffsetInvalid, err
 		}
 		indexTime = items[i].Timestamp
+		vhook.At("writer.item")
 	}
 
+	vhook.At("writer.before-append")
 	return w.index.append(items), nil
 }
 
@@ -123,6 +127,7 @@ func (w *writer) Delete(rs *segment.RewriteSegment) (*writer, *reader, error) {
 		return nil, nil, errSegmentChanged
 	}
 
+	vhook.At("writer.delete.validated")
 	if err := w.Close(); err != nil {
 		return nil, nil, err
 	}
